@@ -30,7 +30,7 @@ PtrTo(t) == <<192 + (t \div 256), t % 256>>
 LinkOff(i) == IF i = 0 THEN 18 ELSE 19 + 2 * (i - 1)
 ChainMsg(k) == Hdr12(1, 0) \o PtrTo(LinkOff(k - 1)) \o <<0, 1, 0, 1>> \o <<0>>
                \o Concat([i \in 1..(k - 1) |-> PtrTo(LinkOff(i - 1))])
-Hops == {1, 2, 3, 125, 126, 127, 128, 255, 1000}
+Hops == {1, 2, 3, 125, 126, 127, 128, 255, 256, 1000, 8000}
 
 \* long names around the 255-octet limit, written out or with the tail reached through a forward pointer.
 \* v.region = <<form, x, viaPtr>>: form 1 = labels 63,63,63,x (x in 56..63: 250..257 octets);
